@@ -42,7 +42,9 @@ PRE = {
     "ps": {"id": "ps", "type": "set_state", "key": "k", "val": "v"},
     "cl": {"id": "cl", "type": "change_logsource", "product": "linux"},
     "m0": {"id": "m0", "type": "field_name_mapping", "mapping": {"f1": "g1"}},
+    "p0": {"id": "p0", "type": "set_state", "key": "z", "val": 0},  # a state value that is falsy in Python (only in the small history set)
 }
+PRE_FULL = ["ps", "cl", "m0"]
 
 # pool: name -> (yaml dict, reference function(state, target))
 RULE_POOL = {
@@ -52,6 +54,7 @@ RULE_POOL = {
     "cf_g1": {"type": "contains_field", "field": "g1"},
     "cdi_5": {"type": "contains_detection_item", "field": "f2", "value": 5},
     "cdi_6": {"type": "contains_detection_item", "field": "f2", "value": 6},
+    "cdi_s5": {"type": "contains_detection_item", "field": "f2", "value": "5"},  # the string "5" is not the number 5
     "is_rule": {"type": "is_sigma_rule"},
     "is_corr": {"type": "is_sigma_correlation_rule"},
     "attr_t": {"type": "rule_attribute", "attribute": "title", "value": "probe"},
@@ -62,6 +65,8 @@ RULE_POOL = {
     "app_ps": {"type": "processing_item_applied", "processing_item_id": "ps"},
     "st_kv": {"type": "processing_state", "key": "k", "val": "v"},
     "st_ne": {"type": "processing_state", "key": "k", "val": "v", "op": "ne"},
+    "st_z0": {"type": "processing_state", "key": "z", "val": 0},
+    "st_z0ne": {"type": "processing_state", "key": "z", "val": 1, "op": "ne"},
 }
 DI_POOL = {
     "ms_a": {"type": "match_string", "cond": "any", "pattern": "^a"},
@@ -104,6 +109,9 @@ class Model:
         if name == "ps":
             self.state["k"] = "v"
             self.rule_applied.add("ps")
+        elif name == "p0":
+            self.state["z"] = 0
+            self.rule_applied.add("p0")
         elif name == "cl":
             self.product = "linux"
             self.rule_applied.add("cl")
@@ -416,10 +424,10 @@ def sweep(scope, tier):
 
 
 def pre_histories(tier):
-    return list(E.histories(list(PRE), BOUNDS[tier]["pre"]))
+    return list(E.histories(PRE_FULL, BOUNDS[tier]["pre"]))
 
 
-PRES_SMALL = [(), ("ps",), ("cl",), ("m0",), ("m0", "ps"), ("cl", "m0")]
+PRES_SMALL = [(), ("ps",), ("cl",), ("m0",), ("m0", "ps"), ("cl", "m0"), ("p0",), ("p0", "ps")]
 
 
 def space(tier):
